@@ -1,17 +1,17 @@
-//! hcore: executes protocol lines against the real minicbor (std + half + derive).
-//! One operation per input line, one canonical result line per operation.
+//! hio: executes minicbor-io scenarios (one per input line) against the real crate:
+//! scripted blocking and async byte streams, futures polled by hand with a no-op waker.
 mod util;
-mod encop;
-mod decop;
-mod dispop;
-mod typed;
-mod tokop;
+mod val;
+mod script;
+mod ops;
 
 use std::io::{BufRead, Write};
 
+#[global_allocator]
+static ALLOC: util::Counting = util::Counting;
+
 fn main() {
     std::panic::set_hook(Box::new(|_| {}));
-    if std::env::args().nth(1).as_deref() == Some("tlist") { typed::tlist(); return }
     let stdin = std::io::stdin();
     let stdout = std::io::stdout();
     let mut out = std::io::BufWriter::new(stdout.lock());
@@ -26,14 +26,12 @@ fn main() {
 }
 
 fn dispatch(w: &[&str]) -> String {
-    match w[0] {
-        "enc" => encop::run(&w[1..]),
-        "dec" => decop::run(&w[1..]),
-        "display" => dispop::run(&w[1..]),
-        "tenc" => typed::run_enc(&w[1..]),
-        "tdec" => typed::run_dec(&w[1..]),
-        "tokenc" => tokop::run_enc(&w[1..]),
-        "tokdec" => tokop::run_dec(&w[1..]),
-        _ => "bad-op".into()
-    }
+    let r = match w[0] {
+        "fwrite" => ops::fwrite(&w[1..]),
+        "fread" => ops::fread(&w[1..]),
+        "aread" => ops::aread(&w[1..]),
+        "awrite" => ops::awrite(&w[1..]),
+        _ => None
+    };
+    r.unwrap_or_else(|| "bad-op".into())
 }
